@@ -8,7 +8,7 @@ PROPS = {
     'C06': A(level='model_checking',
              harnesses=[A(src='harness/c06_rbtree.cpp', san='asan')],
              budget=A(quick=150, thorough=2400),
-             bounds=A(quick='rbtree: pool N=5, all 3^5 key assignments, + N=7 distinct keys (asc/desc/mixed); rbtree_order N=7 with insert(before, x) for every before (1.27 million states); a comparator object with state (descending); insert/remove histories of any length (fixpoint)',
+             bounds=A(quick='rbtree: pool N=5, all 3^5 key assignments, + N=7 distinct keys (asc/desc/mixed); rbtree_order N=7 with insert(before, x) for every before (1.27 million states); a comparator object with state (descending); insert/remove histories of any length (fixpoint); grow-then-shrink: every insertion order of 11 distinct keys, then every removal order of every tree so reached (thorough: 13)',
                       thorough='rbtree: pool N=6, all 3^6 key assignments, + N=8 distinct; rbtree_order N=8; fixpoint'),
              assumptions=TRUST),
 }
@@ -30,14 +30,14 @@ PROPS['C08'] = A(level='model_checking',
 
 SEQ_H = [A(src='harness/c13_seq.cpp', san='asan')]
 PROPS['C13'] = A(level='model_checking', harnesses=SEQ_H, budget=A(quick=150, thorough=1500),
-    bounds=A(quick='two slots per container type; vector<int|Tracked> depth 5 sizes<=7; small_vector<.,2|4> depth 5; dyn_array depth 4 sizes 0..3; stack depth 10; list depth 9; intrusive_list fixpoint over 5 nodes/2 lists; vector == / != for every pair of sequences of length <=2 over double, float (incl. +0/-0/NaN), a key with coarser equality and a padded struct',
+    bounds=A(quick='two slots per container type; vector<int|Tracked> depth 5 sizes<=7; small_vector<.,2|4> depth 5; dyn_array depth 4 sizes 0..3; stack depth 10; list depth 9; intrusive_list fixpoint over 5 nodes/2 lists; vector == / != for every pair of sequences of length <=2 over double, float (incl. +0/-0/NaN), a key with coarser equality and a padded struct; emplace_back both from the constructor argument and from an lvalue of the element type',
              thorough='vector depth 7 sizes<=15; small_vector depth 6-7 sizes<=11; dyn_array depth 5; stack depth 16; list depth 14; intrusive_list fixpoint over 6 nodes'),
     assumptions=TRUST)
 PROPS['C13']['harnesses'] = SEQ_H + [A(src='harness/c13_ilist.cpp', san='asan')]
 
 HM_H = [A(src='harness/c14_hashmap.cpp', san='asan')]
 PROPS['C14'] = A(level='model_checking', harnesses=HM_H, budget=A(quick=150, thorough=1500),
-    bounds=A(quick='6 hash functions returning 64-bit values (identity, constant, low bit, x10, a 64-bit mix with significant high bits, a negative/sign-extended one) x 12 start states (pre-filled to 0,8,9,10,11,19,20,21,39,40 entries; filled to 12/21 and emptied) x all histories of depth 4 (5 from empty) over insert(const&/&&)/operator[]/operator[]=/remove on a 5-key alphabet of present and absent keys; get/find/const find/size/empty/iteration for every key of the universe after every transition; the same for the library functors frg::hash<int> (negative keys), frg::hash<int64_t>, frg::hash<uint64_t> (keys above 2^32) and frg::hash<T*> from 5 start states each',
+    bounds=A(quick='6 hash functions returning 64-bit values (identity, constant, low bit, x10, a 64-bit mix with significant high bits, a negative/sign-extended one) x 12 start states (pre-filled to 0,8,9,10,11,19,20,21,39,40 entries; filled to 12/21 and emptied) x all histories of depth 4 (5 from empty) over insert(const&/&&)/operator[]/operator[]=/remove on a 5-key alphabet of present and absent keys; get/find/const find/size/empty/iteration for every key of the universe after every transition; the same for the library functors frg::hash<int> (negative keys), frg::hash<int64_t>, frg::hash<uint64_t> (keys above 2^32) and frg::hash<T*> from 5 start states each; find(a)==find(b) for every pair of present keys, position find(k) met exactly once on a walk from begin(); the caller-side hasher object overwritten after the map is built',
              thorough='7 hash functions, depth 5 (6 from empty)'),
     assumptions=TRUST)
 
@@ -50,13 +50,13 @@ PROPS['C17'] = A(level='model_checking', harnesses=HOLD_H, budget=A(quick=150, t
 PROPS['C16'] = A(level='model_checking',
     harnesses=SEQ_H + HM_H + HOLD_H + [A(src='harness/c16_owners.cpp', san='asan')],
     budget=A(quick=170, thorough=1500),
-    bounds=A(quick='lifetime registry + tracking allocator as a second oracle over the C13/C14/C17 explorations (same bounds), plus unique_ptr / unique_memory / construct+destruct helpers to fixpoint; after EVERY transition all owners are destroyed and the registries must be empty',
+    bounds=A(quick='lifetime registry + tracking allocator as a second oracle over the C13/C14/C17 explorations (same bounds), plus unique_ptr / unique_memory / construct+destruct helpers to fixpoint; after EVERY transition all owners are destroyed and the registries must be empty; unique_ptr with an element whose destructor clears its owner if the owner still designates it',
              thorough='same harnesses at their thorough bounds'),
     assumptions=TRUST)
 
 RX_H = [A(src='harness/c09_radix.cpp', san='asan')]
 PROPS['C09'] = A(level='model_checking', harnesses=RX_H, budget=A(quick=170, thorough=1500),
-    bounds=A(quick='every subset S, |S|<=3, of a 20-key alphabet (0, 2^64-1, 1<<(60-4j) for j=0..15, 2<<60, 2: pairs first differ at every nibble position); insert/find_or_insert/erase histories over S of any length (fixpoint); find() of every key of S and of 32 single-nibble neighbours per key, and full iteration, after every transition',
+    bounds=A(quick='every subset S, |S|<=3, of a 20-key alphabet (0, 2^64-1, 1<<(60-4j) for j=0..15, 2<<60, 2: pairs first differ at every nibble position); insert/find_or_insert/erase histories over S of any length (fixpoint); find() of every key of S and of 32 single-nibble neighbours per key, and full iteration, after every transition; deep and wide trees: full-depth paths (16 keys, inner node at every depth) in 4 insertion orders, sparse sets, full leaves and inner nodes: find, absent neighbours at every nibble, iteration after every insert/erase/re-insert',
              thorough='every subset of size <=3 of a 41-key alphabet (adds 2<<(60-4j), 15, 2^64-16, 8<<60, 3) plus every 4-subset of the 20-key alphabet; fixpoint'),
     assumptions=TRUST)
 PROPS['C16']['harnesses'] = PROPS['C16']['harnesses'] + RX_H
@@ -64,13 +64,13 @@ PROPS['C16']['harnesses'] = PROPS['C16']['harnesses'] + RX_H
 _MT_H = [A(src='harness/c05_slab_mt.cpp', san='asan', sched=True), A(src='harness/c05_slab_mt.cpp', san='tsan', sched=True)]
 SLAB_H = [A(src='harness/c01_slab.cpp', san='asan', opt='-O2', tag='-p%d' % i, flags=['-DSLAB_PART=%d' % i]) for i in range(4)]
 HUGE_H = [A(src='harness/c03_slab_huge.cpp', san='asan', opt='-O2')]
-SLAB_B = A(quick='policy configs: tiny (page 256, slab=sb 4 KiB, 8 classes; aligned map / one-argument map with bases at 3 offsets / no poison hooks), split (slab 2 KiB < sb 4 KiB, aligned and one-argument map), odd (slab 7 pages, sb 8 pages, largest class 2 pages), defaults (4 KiB/256 KiB/13 classes, both map flavours). (a) alloc/free/deallocate/realloc/realloc(null) histories to FIXPOINT (any length) over small size alphabets with <=2..5 live blocks; (b) all histories to depth 5 (4 odd, 3 defaults) over the full 5-7 size alphabets with <=3..4 live blocks; (c) size sweep: every request 0..largest class+2 pages and every size within +-2 of a page multiple up to 3 superblocks+1 page from 3 base states, every realloc pair over the class/page boundaries',
+SLAB_B = A(quick='policy configs: tiny (page 256, slab=sb 4 KiB, 8 classes; aligned map / one-argument map with bases at 3 offsets / no poison hooks), split (slab 2 KiB < sb 4 KiB, aligned and one-argument map), odd (slab 7 pages, sb 8 pages, largest class 2 pages), defaults (4 KiB/256 KiB/13 classes, both map flavours). (a) alloc/free/deallocate/realloc/realloc(null) histories to FIXPOINT (any length) over small size alphabets with <=2..5 live blocks; (b) all histories to depth 5 (4 odd, 3 defaults) over the full 5-7 size alphabets with <=3..4 live blocks; (c) size sweep: every request 0..largest class+2 pages and every size within +-2 of a page multiple up to 3 superblocks+1 page from 3 base states, every realloc pair over the class/page boundaries; (c2) churn: per size class x request at both ends of the class (and 0) x {free, deallocate(p,n), realloc(p,0)}: 2*blocks-per-slab+3 allocate/release cycles with one live block (tiny configs all classes, default config the 8-byte class: 65513 cycles); 16 KiB-page configurations in the sweeps; every swept realloc followed by a second, moving realloc and, after an in-place shrink, a regrow to the page-rounded size',
            thorough='same with more fixpoint alphabets at 3 live blocks, depth 7 (6 odd, 5 defaults), sweeps from all base states')
 SLAB_HUGE = A(quick='; (e) requests around 2^31, 2^32, 1.5*2^32 and 2^33 bytes (13 offsets -8192..+8192 each, plus 5 GiB+12345): allocate / second block / free, realloc from 24, 48, 40000 and 300000 patterned bytes up and down again, realloc(null), sized deallocate, x {two-argument map, one-argument map} x {with, without poison hooks}, over an address-space-only policy (212 cases)', thorough='; (e) the same plus 75 sizes around every multiple of 2^31 up to 2^35')
 for pid, extra in (('C01', ''), ('C02', ''), ('C03', '')):
     PROPS[pid] = A(level='model_checking', technique='explicit-state model checking of the real implementation (BFS over operation histories with state hashing, exhaustive size sweeps) plus stateless model checking of interleaved histories (preemption-bounded schedule enumeration under a serialising scheduler, ThreadSanitizer over the same schedules)', harnesses=SLAB_H + _MT_H + HUGE_H, budget=A(quick=170, thorough=1700), bounds=(A(quick=SLAB_B['quick'] + '; (d) interleaved histories: 4 two/three-thread scripts on one slab under the serialising scheduler, all schedules with <=2 preemptions (H11: 3), ASan+oracles and ThreadSanitizer' + SLAB_HUGE['quick'], thorough=SLAB_B['thorough'] + '; scheduler scripts with <=3 (H11: 4) preemptions' + SLAB_HUGE['thorough']) if pid == 'C01' else A(quick=SLAB_B['quick'] + '; (d) the content/footprint (C02) resp. page-accounting/region (C03) oracles over 2-3 scheduler scripts with <=2 preemptions, ASan and ThreadSanitizer' + SLAB_HUGE['quick'], thorough=SLAB_B['thorough'] + '; scheduler scripts with <=3 preemptions' + SLAB_HUGE['thorough'])), assumptions=TRUST + ['ASan manual poisoning is conservative at 8-byte granularity'])
 PROPS['C04'] = A(level='fault_enumeration', harnesses=SLAB_H, budget=A(quick=170, thorough=1700),
-    bounds=A(quick='the C01 explorations with one more environment answer: at every op that can call Policy::map, the call is failed (<=1 failure per history), either the first or the second map() call of the operation; every reachable state within the bounds is a failure point; plus the same with the policy freeing a live block of the pool from inside the failing map() call (what a concurrent free during the unlocked map() amounts to)', thorough='<=2 failures per history'),
+    bounds=A(quick='the C01 explorations with one more environment answer: at every op that can call Policy::map, the call is failed (<=1 failure per history), either the first or the second map() call of the operation; every reachable state within the bounds is a failure point; plus the same with the policy freeing a live block of the pool from inside the failing map() call (what a concurrent free during the unlocked map() amounts to); a request that a free object of its class can serve must not fail when map() fails; poison hooks on unmapped addresses inside a failing operation', thorough='<=2 failures per history'),
     rule='cases = (history, failed map call) pairs enumerated by BFS over alloc/realloc ops with a failing-map variant; distinct = distinct canonical states reached; non-trivial = the failing variant actually reached map()',
     assumptions=TRUST)
 
@@ -119,13 +119,13 @@ PROPS['C05'] = A(level='model_checking', engine='sched', harnesses=SCHED('harnes
     assumptions=TRUST + ['plain memory accesses are not scheduling points; data-race freedom is checked separately by ThreadSanitizer on every explored schedule', 'interleaving semantics'])
 
 PROPS['C10'] = A(level='model_checking', engine='sched', harnesses=SCHED('harness/c10_radix_mt.cpp'), budget=A(quick=170, thorough=1700),
-    bounds=A(quick='rcu_radixtree with std::atomic swapped for a scheduling-point atomic: 5 scripts of one writer (2-3 insert/erase ops covering first insert, root split, split below an inner node, second key in a leaf, erase, re-insert) and one reader (2 finds), every atomic load/store a scheduling point, all schedules with <=2 preemptions; vector-clock check that the value construction happens-before the reader; same schedules under ThreadSanitizer',
+    bounds=A(quick='rcu_radixtree with std::atomic swapped for a scheduling-point atomic: 5 scripts of one writer (2-3 insert/erase ops covering first insert, root split, split below an inner node, second key in a leaf, erase, re-insert) and one reader (2 finds), every atomic load/store a scheduling point, all schedules with <=2 preemptions; vector-clock check that the value construction happens-before the reader; same schedules under ThreadSanitizer; plus readers probing never-inserted keys that differ from a stored key only in a skipped nibble (S10/S11) and a path without compression, 16 nodes deep (S12)',
              thorough='<=3 preemptions, two readers, 5-op writer, single insert vs find with all interleavings'),
     technique='stateless model checking: exhaustive preemption-bounded enumeration of schedules at atomic-access granularity on the real rcu_radixtree, linearisation oracle on the recorded call/return history, vector-clock happens-before oracle, ThreadSanitizer over the same schedules',
     assumptions=TRUST + ['interleaving semantics; ordering defects are detected as missing happens-before edges (vector clocks, TSan)'])
 
 PROPS['C11'] = A(level='model_checking', engine='sched', harnesses=[A(src='harness/c11_qs_seq.cpp', san='asan', flags=['-fno-access-control'])] + SCHED('harness/c11_qs_mt.cpp'), budget=A(quick=170, thorough=1700),
-    bounds=A(quick='(A) whole-operation BFS: 1-3 agents, up to 3 barriers per agent, every history of online/offline/quiescent_state/await_barrier/run to depth 24/15/14/13/12 (1 agent / 2 agents x 2 nodes / 2x3 / 3x1 / 3x2), coverage-set safety oracle, callback poisons its node, bounded liveness (5 fair rounds) from every state; (B) threads: 8 scripts (registrar vs worker, quiescent_barrier vs worker, late join/early leave, two registrars, deferred period restarted, worker stays online for callback / for barrier, two concurrent await_barrier calls with an older barrier pending [<=3 preemptions]), every atomic access and mutex operation a scheduling point, all schedules with <=2 preemptions, interval-semantics safety oracle, vector-clock happens-before oracle, termination; same schedules under ThreadSanitizer',
+    bounds=A(quick='(A) whole-operation BFS: 1-3 agents, up to 3 barriers per agent, every history of online/offline/quiescent_state/await_barrier/run to depth 24/15/14/13/12 (1 agent / 2 agents x 2 nodes / 2x3 / 3x1 / 3x2), coverage-set safety oracle, callback poisons its node, bounded liveness (5 fair rounds) from every state; (B) threads: 8 scripts (registrar vs worker, quiescent_barrier vs worker, late join/early leave, two registrars, deferred period restarted, worker stays online for callback / for barrier, two concurrent await_barrier calls with an older barrier pending [<=3 preemptions]), every atomic access and mutex operation a scheduling point, all schedules with <=2 preemptions, interval-semantics safety oracle, vector-clock happens-before oracle, termination; same schedules under ThreadSanitizer; (C) churn liveness: 1-3 agents x registrar x 3 presence patterns, one new barrier registered per round for 17 rounds, every barrier must fire within 6 rounds',
              thorough='(A) depths 28/17/16/15/14; (B) <=3 preemptions, three agents, two barriers of one agent, barrier vs barrier'),
     technique='explicit-state BFS over operation histories plus stateless preemption-bounded schedule enumeration of the real qs.hpp under a serialising scheduler with vector-clock happens-before and ThreadSanitizer oracles',
     assumptions=TRUST + ['interleaving semantics; ordering defects are detected as missing happens-before edges'])
